@@ -51,7 +51,13 @@ type wlPure struct {
 	// SharedBuilder: every wgraph call of the run uses one
 	// WeightedAuthorizationModelGraphBuilder value instead of a fresh one.
 	SharedBuilder bool `json:"shared_builder,omitempty"`
+	// ScribbleWarm: the caller writes all over the objects the warm-up calls
+	// returned (models, graphs).
+	ScribbleWarm bool `json:"scribble_warm,omitempty"`
 }
+
+// scribbleResults: set while the warm-up history of a run executes.
+var scribbleResults bool
 
 // sharedBuilder is set for the duration of a run when the workload asks for it.
 var sharedBuilder *graph.WeightedAuthorizationModelGraphBuilder
@@ -232,7 +238,11 @@ func execOp(op pOp, r *rInput) (res string) {
 		if err != nil {
 			return "error: " + err.Error()
 		}
-		return "model: " + detBytes(m)
+		out := "model: " + detBytes(m)
+		if scribbleResults {
+			scribbleModel(m)
+		}
+		return out
 	case "dsl2json":
 		s, err := transformer.TransformDSLToJSON(r.dsl)
 		if err != nil {
@@ -271,6 +281,10 @@ func execOp(op pOp, r *rInput) (res string) {
 		if err != nil {
 			return "error: reversed: " + err.Error()
 		}
+		if scribbleResults {
+			defer scribblePlain(g)
+			defer scribblePlain(rev)
+		}
 		cyc := "skipped"
 		if g.Nodes().Len() <= 24 {
 			cyc = cycleFlags(g.GetCycles())
@@ -282,6 +296,9 @@ func execOp(op pOp, r *rInput) (res string) {
 			builder = graph.NewWeightedAuthorizationModelGraphBuilder()
 		}
 		g, err := builder.Build(r.pm)
+		if err == nil && scribbleResults {
+			defer scribbleWeighted(g)
+		}
 		if err != nil {
 			// which of several applicable sentinel errors is returned may depend
 			// on the traversal order (not fixed by any statement): verdict only
@@ -393,7 +410,11 @@ func execOp(op pOp, r *rInput) (res string) {
 		if o.Err != nil {
 			return "errors: " + o.errText()
 		}
-		return "model: " + detBytes(o.Model)
+		out := "model: " + detBytes(o.Model)
+		if scribbleResults {
+			scribbleModel(o.Model)
+		}
+		return out
 	case "modfile":
 		mf, err := transformer.TransformModFile(r.dsl)
 		if err != nil {
@@ -509,11 +530,13 @@ func (c *pureCtx) check(cfg simrt.Config) ([]mismatch, simrt.Stats, string) {
 	// history
 	if len(wl.Warm) > 0 {
 		simrt.CountFault("history.warm")
+		scribbleResults = wl.ScribbleWarm
 		for _, op := range wl.Warm {
 			if valid(op) {
 				_ = execOp(op, rin[op.In])
 			}
 		}
+		scribbleResults = false
 	}
 	if wl.ColdBefore {
 		parser.VerifColdRestart()
@@ -849,6 +872,9 @@ func genPureWorkload(r *rng) *wlPure {
 		switch x := r.intn(100); {
 		case x < 45:
 			m := genDSLModel(r)
+			if r.chance(3) {
+				m = genWideModel(r)
+			}
 			if r.chance(35) {
 				attributeModel(r, m)
 			}
@@ -861,6 +887,12 @@ func genPureWorkload(r *rng) *wlPure {
 			unhoist(r, m)
 			if r.chance(35) {
 				attributeModel(r, m)
+			}
+			if len(m.Conds) > 0 && r.chance(10) {
+				// JSON-only: a container parameter without element type (the
+				// printer panics on it; the panic is the - reproducible - result)
+				c := m.Conds[r.intn(len(m.Conds))]
+				c.Params = append(c.Params, Param{Name: "zz", Type: "list"})
 			}
 			if len(m.Conds) > 0 && r.chance(30) {
 				// JSON-only: a condition whose nested name is missing, or differs
@@ -939,6 +971,7 @@ func genPureWorkload(r *rng) *wlPure {
 	}
 	wl.ColdBefore = r.chance(50)
 	wl.SharedBuilder = r.chance(40)
+	wl.ScribbleWarm = len(wl.Warm) > 0 && r.chance(50)
 	return wl
 }
 
